@@ -96,6 +96,9 @@ def level_segments(rnd, lvl):
         return segs
     segs = [("free", named)]
     if tail["kind"] == "cmd":
+        pre = [("pos", "", [it_word(value_for(rnd, p["vt"]))]) for p in tail.get("pre_pos", [])]
+        if pre:
+            segs = [("free", interleave(rnd, named, pre))]
         if tail["optional"] and rnd.random() < 0.3:
             return segs
         c = rnd.choice(tail["cmds"])
